@@ -344,7 +344,7 @@ impl<W: WorldOps> Engine<W> {
                     let same_arch = s.m.ents[prev].arch == ai;
                     let excused = self.wrapping && same_arch && rel_now - rel_then >= (u32::MAX as u64);
                     if !excused {
-                        self.viol(Some(wi), &["C08"], "reissued-handle", format!("{}: create returned {} which was already issued (uid {prev}; position released {} times in between)", a.name(), raw_fmt(h), rel_now - rel_then));
+                        self.viol(Some(wi), &["C08", "C01"], "reissued-handle", format!("{}: create returned {} which was already issued (uid {prev}; position released {} times in between)", a.name(), raw_fmt(h), rel_now - rel_then));
                     } else {
                         self.rep.count("reissue_after_full_wrap");
                     }
